@@ -69,6 +69,9 @@ pub fn name_pools() -> Vec<(Vec<&'static str>, Vec<&'static str>)> {
         (vec!["order", "order_type", "type", "orderType", "order-type", "game", "game.match", "match"], vec!["type", "order_type", "orderType", "match"]),
         // attribute keys that differ only by white space the XML tokenizer does not strip (NBSP, VT, FF)
         (vec!["a", "b"], vec!["id", "id\u{a0}", "\u{a0}lang", "lang", "id\u{c}", "\u{b}id"]),
+        // names that spell the numbered identifier the renderer hands out for a collision
+        // (item / Item -> item_1; a sibling literally called item_1 / item_2 next to them)
+        (vec!["item", "item_2", "Item", "item_1", "ITEM", "item_3"], vec!["text", "text_content", "text_content_2", "text_content_1", "Text"]),
     ]
 }
 
@@ -552,7 +555,7 @@ pub fn run_docprop(ctx: &mut Ctx, p: DocProp) {
     ctx.meta.push(("evaluations", J::N(evaluations)));
     ctx.meta.push(("distinct_nontrivial", J::N(distinct.len() as i64)));
     ctx.meta.push(("rule", json::s(format!(
-        "documents as DOM trees serialised with random incidental detail: {}{} random sequences of 1-{} documents with a common root (36 fixed name pools and, for a third of the cases, a pool of random names incl. keywords, case/separator variants, prefixed, non-ASCII, concatenation traps; depth<=5, fan-out<=6); {}; non-trivial = at least 3 nodes, distinct by DOM sequence",
+        "documents as DOM trees serialised with random incidental detail: {}{} random sequences of 1-{} documents with a common root (37 fixed name pools and, for a third of the cases, a pool of random names incl. keywords, case/separator variants, prefixed, non-ASCII, concatenation traps; depth<=5, fan-out<=6); {}; non-trivial = at least 3 nodes, distinct by DOM sequence",
         exh_note, n_rand, p.max_docs, p.what))));
     ctx.meta.push(("histogram", hist.json()));
     ctx.meta.push(("samples", J::A(samples)));
